@@ -55,6 +55,11 @@ class Scaling:
         assert cons_weights.ndim == 1
         assert cons_weights.dtype in [np.int64, np.int32, np.int16, np.int8]
 
+        # weight arithmetic (differences and sums of up to three weights) must not
+        # wrap around in narrow integer types
+        self.var_weights = var_weights.astype(np.int64)
+        self.cons_weights = cons_weights.astype(np.int64)
+
         self.obj_weight = obj_weight
 
     @staticmethod
